@@ -69,7 +69,8 @@ _c('C17', 'Proved: entering DispatchTrip assigns, leaving it by any instruction 
 _c('C18', 'Proved: the update order is non-queued first then queued sorted by the injective key (enqueue_time, id); every vehicle is processed; of two queued vehicles the earlier is offered a freed plug first. '
           'Proved from any state satisfying the counts invariant (C18_offered_in_queue_order): while the queued vehicles are processed no plug count ever grows, so a vehicle that finds a plug free at its turn implies every '
           'earlier vehicle of that queue found one free at its own earlier turn; a vehicle that is offered the plug and whose update goes through is charging (C18_offered_and_updated_leaves_queue). '
-          'PARTIAL: an earlier vehicle can stay waiting only if its OWN update is refused although the plug is free (hypothesis can_use): decided by correspondence + FIFO monitor.',
+          'Proved (C18_offered_plug_is_taken): under the counts and places invariants (both proved over all histories) a queued vehicle whose powertrain accepts the plug type and which finds it free cannot be refused, so an earlier waiting vehicle is never passed over. '
+          'PARTIAL: a vehicle queueing for a plug type its powertrain cannot use is outside the theorem: correspondence + FIFO monitor.',
    'Coq proof: processing order (sortedness, permutation) + monotone plug counts over the queued pass + correspondence + FIFO trace monitor')
 _c('C19', 'Proved: each state-changing primitive files exactly one event carrying exactly the change (move distance = odometer growth, charge energy = level rise, price = amount moved, pickup stamped at the '
           'step start). Proved over ALL finite histories, any controller (C19_events_explain_vehicles): per vehicle the move events\' distances sum to the odometer growth and the charge events\' energies to the growth of energy_gained; '
